@@ -85,6 +85,8 @@ mod permissions;
 #[cfg(test)]
 mod test_utils;
 mod validation;
+#[cfg(feature = "verif-hooks")]
+pub mod verif;
 mod welcomes;
 
 pub use self::encryption::EncryptionConfig;
@@ -454,6 +456,8 @@ impl MdkSqliteStorage {
     where
         F: FnOnce(&Connection) -> T,
     {
+        #[cfg(feature = "verif-hooks")]
+        crate::verif::tick(std::any::type_name::<F>());
         let conn = self.connection.lock().unwrap();
         f(&conn)
     }
@@ -461,6 +465,8 @@ impl MdkSqliteStorage {
     /// Creates a snapshot of a group's state by copying all group-related rows
     /// to the snapshot table.
     fn snapshot_group_state(&self, group_id: &GroupId, name: &str) -> Result<(), Error> {
+        #[cfg(feature = "verif-hooks")]
+        crate::verif::tick("snapshot_group_state");
         let conn = self.connection.lock().unwrap();
         let group_id_bytes = group_id.as_slice();
         // MLS storage uses MlsCodec serialization for group_id keys.
@@ -496,6 +502,8 @@ impl MdkSqliteStorage {
                 &mls_group_id_bytes,
                 now,
             )?;
+            #[cfg(feature = "verif-hooks")]
+            crate::verif::tick_fallible("snapshot_group_state::after_group_data")?;
             Self::snapshot_openmls_proposals(
                 &conn,
                 &mut insert_stmt,
@@ -504,6 +512,8 @@ impl MdkSqliteStorage {
                 &mls_group_id_bytes,
                 now,
             )?;
+            #[cfg(feature = "verif-hooks")]
+            crate::verif::tick_fallible("snapshot_group_state::after_proposals")?;
             Self::snapshot_openmls_own_leaf_nodes(
                 &conn,
                 &mut insert_stmt,
@@ -512,6 +522,8 @@ impl MdkSqliteStorage {
                 &mls_group_id_bytes,
                 now,
             )?;
+            #[cfg(feature = "verif-hooks")]
+            crate::verif::tick_fallible("snapshot_group_state::after_own_leaf_nodes")?;
             Self::snapshot_openmls_epoch_key_pairs(
                 &conn,
                 &mut insert_stmt,
@@ -520,9 +532,15 @@ impl MdkSqliteStorage {
                 &mls_group_id_bytes,
                 now,
             )?;
+            #[cfg(feature = "verif-hooks")]
+            crate::verif::tick_fallible("snapshot_group_state::after_epoch_key_pairs")?;
             // MDK tables use raw bytes for mls_group_id
             Self::snapshot_groups_table(&conn, &mut insert_stmt, name, group_id_bytes, now)?;
+            #[cfg(feature = "verif-hooks")]
+            crate::verif::tick_fallible("snapshot_group_state::after_groups")?;
             Self::snapshot_group_relays(&conn, &mut insert_stmt, name, group_id_bytes, now)?;
+            #[cfg(feature = "verif-hooks")]
+            crate::verif::tick_fallible("snapshot_group_state::after_relays")?;
             Self::snapshot_group_exporter_secrets(
                 &conn,
                 &mut insert_stmt,
@@ -530,6 +548,8 @@ impl MdkSqliteStorage {
                 group_id_bytes,
                 now,
             )?;
+            #[cfg(feature = "verif-hooks")]
+            crate::verif::tick_fallible("snapshot_group_state::before_commit")?;
 
             Ok(())
         })();
@@ -854,6 +874,8 @@ impl MdkSqliteStorage {
     /// Restores a group's state from a snapshot by deleting current rows
     /// and re-inserting from the snapshot table.
     fn restore_group_from_snapshot(&self, group_id: &GroupId, name: &str) -> Result<(), Error> {
+        #[cfg(feature = "verif-hooks")]
+        crate::verif::tick("restore_group_from_snapshot");
         let conn = self.connection.lock().unwrap();
         let group_id_bytes = group_id.as_slice();
         // MLS storage uses a serde-compatible binary serialization codec for group_id keys.
@@ -931,6 +953,8 @@ impl MdkSqliteStorage {
             .map_err(|e| Error::Database(e.to_string()))?;
 
         let result = (|| -> Result<(), Error> {
+            #[cfg(feature = "verif-hooks")]
+            crate::verif::tick_fallible("restore_group_from_snapshot::after_begin")?;
             // 2. Delete current rows for this group from all 7 tables
             // OpenMLS tables use MlsCodec-serialized group_id as their key
             conn.execute(
@@ -957,6 +981,8 @@ impl MdkSqliteStorage {
             )
             .map_err(|e| Error::Database(e.to_string()))?;
 
+            #[cfg(feature = "verif-hooks")]
+            crate::verif::tick_fallible("restore_group_from_snapshot::after_openmls_deletes")?;
             // For MDK tables, we need to disable foreign key checks temporarily
             // or delete in the right order to avoid FK violations
             conn.execute(
@@ -977,6 +1003,8 @@ impl MdkSqliteStorage {
             )
             .map_err(|e| Error::Database(e.to_string()))?;
 
+            #[cfg(feature = "verif-hooks")]
+            crate::verif::tick_fallible("restore_group_from_snapshot::after_mdk_deletes")?;
             // Note: The CASCADE will have deleted the snapshot rows, but we already
             // have the data in memory (snapshot_rows).
 
@@ -1047,6 +1075,8 @@ impl MdkSqliteStorage {
 
             // Now restore all other tables (groups already done above)
             for (table_name, row_key, row_data) in &snapshot_rows {
+                #[cfg(feature = "verif-hooks")]
+                crate::verif::tick_fallible("restore_group_from_snapshot::restore_row")?;
                 match table_name.as_str() {
                     "openmls_group_data" => {
                         let (gid, data_type): (Vec<u8>, String) =
@@ -1119,6 +1149,8 @@ impl MdkSqliteStorage {
                 }
             }
 
+            #[cfg(feature = "verif-hooks")]
+            crate::verif::tick_fallible("restore_group_from_snapshot::after_restore_rows")?;
             // 4. Delete the consumed snapshot (may be no-op if CASCADE already deleted them)
             conn.execute(
                 "DELETE FROM group_state_snapshots WHERE snapshot_name = ? AND group_id = ?",
@@ -1126,6 +1158,8 @@ impl MdkSqliteStorage {
             )
             .map_err(|e| Error::Database(e.to_string()))?;
 
+            #[cfg(feature = "verif-hooks")]
+            crate::verif::tick_fallible("restore_group_from_snapshot::after_consume")?;
             // 5. Re-insert other snapshots that were deleted by CASCADE
             // This preserves multiple snapshots when rolling back to one of them.
             for (snap_name, table_name, row_key, row_data, created_at) in &other_snapshots {
@@ -1136,6 +1170,8 @@ impl MdkSqliteStorage {
                 )
                 .map_err(|e| Error::Database(e.to_string()))?;
             }
+            #[cfg(feature = "verif-hooks")]
+            crate::verif::tick_fallible("restore_group_from_snapshot::before_commit")?;
 
             Ok(())
         })();
@@ -1155,6 +1191,8 @@ impl MdkSqliteStorage {
 
     /// Deletes a snapshot that is no longer needed.
     fn delete_group_snapshot(&self, group_id: &GroupId, name: &str) -> Result<(), Error> {
+        #[cfg(feature = "verif-hooks")]
+        crate::verif::tick("delete_group_snapshot");
         let conn = self.connection.lock().unwrap();
         conn.execute(
             "DELETE FROM group_state_snapshots WHERE snapshot_name = ? AND group_id = ?",
@@ -1166,6 +1204,35 @@ impl MdkSqliteStorage {
 }
 
 /// Implementation of [`MdkStorageProvider`] for SQLite-based storage.
+#[cfg(feature = "verif-hooks")]
+impl MdkSqliteStorage {
+    /// Verification-only: read one of a fixed allow-list of PRAGMAs from the live connection.
+    pub fn verif_pragma(&self, name: &str) -> Option<String> {
+        const ALLOWED: [&str; 5] = [
+            "cipher_version",
+            "temp_store",
+            "foreign_keys",
+            "journal_mode",
+            "cipher_compatibility",
+        ];
+        if !ALLOWED.contains(&name) {
+            return None;
+        }
+        let conn = self.connection.lock().unwrap();
+        conn.query_row(&format!("PRAGMA {}", name), [], |row| {
+            row.get::<_, rusqlite::types::Value>(0)
+        })
+        .ok()
+        .map(|v| match v {
+            rusqlite::types::Value::Integer(i) => i.to_string(),
+            rusqlite::types::Value::Text(t) => t,
+            rusqlite::types::Value::Real(r) => r.to_string(),
+            rusqlite::types::Value::Null => String::new(),
+            rusqlite::types::Value::Blob(b) => format!("{:?}", b),
+        })
+    }
+}
+
 impl MdkStorageProvider for MdkSqliteStorage {
     /// Returns the backend type.
     ///
@@ -1203,6 +1270,8 @@ impl MdkStorageProvider for MdkSqliteStorage {
         &self,
         group_id: &GroupId,
     ) -> Result<Vec<(String, u64)>, MdkStorageError> {
+        #[cfg(feature = "verif-hooks")]
+        crate::verif::tick("list_group_snapshots");
         let conn = self.connection.lock().unwrap();
         let mut stmt = conn
             .prepare_cached(
@@ -1224,6 +1293,8 @@ impl MdkStorageProvider for MdkSqliteStorage {
     }
 
     fn prune_expired_snapshots(&self, min_timestamp: u64) -> Result<usize, MdkStorageError> {
+        #[cfg(feature = "verif-hooks")]
+        crate::verif::tick("prune_expired_snapshots");
         let conn = self.connection.lock().unwrap();
         let deleted = conn
             .execute(
